@@ -70,7 +70,7 @@ CHECKS = {
             "Trusts M-hash (six algorithms re-implemented from their specifications, test vectors checked at start) and the scratch file system.",
             "pbt"),
     "C13": ("DESIGN.md section 4 / C13",
-            "property-based differential testing against M-hash over generated inputs x generated read schedules with injected Interrupted and hard I/O errors; enumeration of name case variants",
+            "property-based differential testing against M-hash over generated inputs x generated read schedules with injected Interrupted and hard I/O errors; enumeration of name case variants; thorough tier adds a coverage-guided libFuzzer campaign on the same oracle",
             "Generated-input search over (bytes, read schedule): lengths at block boundaries, patch texts with markers at the buffer edge, 1-byte / short / large reads, Interrupted at any point (also bursts of a chosen number, 0-300, in a row), one hard error (12 kinds) at any read before EOF; digests must equal independent implementations of the six standards, errors must be returned.",
             "Trusts M-hash (test vectors at start, cross-checked against Python hashlib during development).",
             "pbt"),
@@ -85,7 +85,7 @@ CHECKS = {
             "Trusts M-plist views (self-checked) and C14 for the text <-> sequence correspondence.",
             "pbt"),
     "C16": ("DESIGN.md section 4 / C16",
-            "property-based differential testing against M-scan with read schedules and fault injection (content faults; hard I/O error enumerated at every read call)",
+            "property-based differential testing against M-scan with read schedules and fault injection (content faults; hard I/O error enumerated at every read call); thorough tier adds a coverage-guided libFuzzer campaign on the same oracle",
             "Generated-input search over multi-record inputs x chunked readers; every public field of every record is compared with the model; faults (orphan block, bad dependency, bad location, I/O error of six kinds at each read) must fail the read as a whole; unknown keys include identifiers of the library's own literals with values that would matter.",
             "Trusts M-scan; dependency items / locations come from fixed valid and invalid pools (C19 decides their validity).",
             "pbt"),
@@ -152,11 +152,11 @@ def main():
              "serves_properties": [c["property_id"] for c in checks],
              "kind_free_text": "stable-toolchain Rust harness (bin pv): seeded, sharded proptest TestRunner with shrinking, reference models, replay files, known-finding matcher, watchdog"},
             {"name": "libfuzzer", "path": "/verif/harness/fuzz",
-             "serves_properties": ["C01", "C03", "C04", "C09", "C14", "C17"],
+             "serves_properties": ["C01", "C02", "C03", "C04", "C05", "C06", "C08", "C09", "C11", "C13", "C14", "C16", "C17", "C18", "C19"],
              "kind_free_text": "cargo-fuzz / libFuzzer targets (nightly) whose oracle is the same harness code (pkgsrc_verif::fuzz); run by the thorough tier only: 8 worker processes per target, fixed number of runs, fresh corpus seeded from the harness generators, artifacts confirmed through the stable replay path"},
         ],
         "checks": checks,
-        "notes": "All checks: exit 0 held / 1 violation (VIOLATION line) / 2 inconclusive. VERIF_SEED selects the PRNG seed (default 1). ./check rebuilds the harness against /repo's working tree on every call. Known findings: known_findings.json (KF-1 for C01, KF-2 for C17). Replay files may carry a 'history' (cases that must run first on the same thread) for failures caused by state left behind by earlier calls. Sensitivity: 120 independently seeded changes under seeded/, re-run with tools/seed_rerun_all.py. DESIGN.md section 10 is the authoritative description of what was built.",
+        "notes": "All checks: exit 0 held / 1 violation (VIOLATION line) / 2 inconclusive. VERIF_SEED selects the PRNG seed (default 1). ./check rebuilds the harness against /repo's working tree on every call. Known findings: known_findings.json (KF-1 for C01, KF-2 for C17). Replay files may carry a 'history' (cases that must run first on the same thread) for failures caused by state left behind by earlier calls. Sensitivity: 280 independently seeded changes (seven rounds) under seeded/, re-run with tools/seed_rerun_all.py (seeded/RERUN.json). DESIGN.md section 10 is the authoritative description of what was built.",
         "not_applicable": na,
     }
     out = os.path.join(HERE, "MANIFEST.json")
